@@ -1591,7 +1591,7 @@ func (c *connection) handleRecvQueue(q lib.QueueMPSC) {
 	re:
 		switch buf.B[7] {
 		case protoMessagePID: // process id
-			if buf.Len() < 30 {
+			if buf.Len() < 33 {
 				c.log.Error("malformed message (too small MessagePID)")
 				continue
 			}
@@ -1645,7 +1645,7 @@ func (c *connection) handleRecvQueue(q lib.QueueMPSC) {
 			var toName gen.Atom
 			var data []byte
 
-			if buf.Len() < 18 {
+			if buf.Len() < 26 {
 				c.log.Error("malformed message (too small MessageName*)")
 				continue
 			}
